@@ -586,7 +586,12 @@ func (e *SpecEnv) deref(v Val) Val {
 		return e.errorf("deref of non-pointer")
 	}
 	es := c.hk(pt.Elem())
-	return Val{T: c.rd(e.heapOf(es), c.acc("pobj", v.T), c.acc("pidx", v.T)), Ty: pt.Elem()}
+	h := e.heapOf(es)
+	if e.heapParams == nil {
+		// references stored in the cell read here are allocated (heap well-formedness)
+		c.wantSliceWF(es, h)
+	}
+	return Val{T: c.rd(h, c.acc("pobj", v.T), c.acc("pidx", v.T)), Ty: pt.Elem()}
 }
 
 func (e *SpecEnv) field(v Val, name string) Val {
